@@ -63,7 +63,7 @@ def _eff(p):
 
 def generate(tier, seed):
     rng = np.random.default_rng([seed, 18])
-    n = {"quick": 4, "thorough": 30}[tier]
+    n = {"quick": 4, "thorough": 300}[tier]
     cases = []
     for rep in range(2 * n):
         for name in NORMS:
